@@ -64,7 +64,7 @@ Section Total.
         simpl in Hs. pose proof (size_map_in _ _ _ Hkn). lia. }
       rewrite E. simpl. eauto.
     - (* sequences *)
-      unfold diff_lists.
+      unfold diff_lists. destruct (negb _); eauto.
       assert (Haoh : forall nc, exists a', diff_aoh path_eq cfg rec path q (NSeq j rels) lels rels nc a = Ok a').
       { intros nc. unfold diff_aoh. destruct (Hp2 nc) as [E|E]; rewrite E; simpl; eapply Harr; eauto. }
       destruct rels as [|[ | | | ] rr]; try (eapply Harr; eauto; fail). apply Haoh.
